@@ -397,6 +397,18 @@ class Evaluator:
             if op in cmpf:
                 return C(1, 1 if cmpf[op] else 0)
             return T
+        # multiplication / division of a bit vector by a constant power of two (or by zero)
+        if op in ('Mul', 'MulWithOverflow', 'Div') and (isinstance(a, S) or isinstance(b, S)):
+            x, c = (a, b) if isinstance(b, C) else ((b, a) if isinstance(a, C) and op != 'Div' else (None, None))
+            if x is not None and isinstance(x, S):
+                if op != 'Div' and c.v == 0:
+                    return C(x.w, 0)
+                if c.v > 0 and c.v & (c.v - 1) == 0:
+                    n = c.v.bit_length() - 1
+                    bits = to_bits(x)
+                    w = x.w
+                    bits = (['0'] * n + bits)[:w] if op != 'Div' else (bits[n:] + ['0'] * n)[:w]
+                    return norm(bits)
         # zero tests on vectors
         if op in ('Eq', 'Ne') and isinstance(b, C) and b.v == 0 and isinstance(a, S):
             if any(x == '1' for x in a.bits):
